@@ -605,7 +605,19 @@ pub fn check_reduce(ctx: &mut Ctx, c: &RedCase) -> R {
     let y = red_zero(red_mixed(n, salt, 1, 30), c.zeros.min(if salt & 4 == 0 { 2 } else { 0 }), salt, 1);
     let w = red_zero(red_mixed(n, salt, 2, 200), c.zeros, salt, 2);
     let p = red_zero(red_prod(n, salt), c.zeros, salt, 3);
-    let lg = red_log(n, salt);
+    // log-domain data may contain ln 0 = -inf (but not only that: the all -inf case is 0/0 territory and not asserted)
+    let mut lg = red_log(n, salt);
+    if c.zeros == 2 && n >= 2 {
+        let keep = (Hx::new().u(salt).s("keep").finish() % n as u64) as usize;
+        for (i, v) in lg.iter_mut().enumerate() {
+            if i != keep && Hx::new().u(salt).u(i as u64).s("neginf").finish() % 3 == 0 {
+                *v = f64::NEG_INFINITY;
+            }
+        }
+        if keep != 0 {
+            lg[0] = f64::NEG_INFINITY; // in particular in the first position
+        }
+    }
     let (xv, wv, pv, lv) = (Vector::new(x.clone()), Vector::new(w.clone()), Vector::new(p.clone()), Vector::new(lg.clone()));
 
     // sum: any summation order has error <= (n-1)u/(1-(n-1)u) Σ|x| <= n ε Σ|x|   (u = ε/2)
@@ -659,6 +671,9 @@ pub fn check_reduce(ctx: &mut Ctx, c: &RedCase) -> R {
         let m = lg.iter().cloned().fold(f64::NEG_INFINITY, f64::max);
         let mut s = DD::ZERO;
         for v in &lg {
+            if *v == f64::NEG_INFINITY {
+                continue; // exp(-inf) = 0
+            }
             s = s + (DD::new(*v) - DD::new(m)).exp();
         }
         let lse = s.ln() + DD::new(m);
@@ -700,7 +715,7 @@ pub fn run(ctx: &mut Ctx) {
 Matrix::empty() for length 0), each with several data sets; then random lengths up to 1e4 (thorough 1e5). Data are a pure function of \
 (kind, salt, index): finite values distinct per position, a mix with ±0, ±inf, subnormals and NaN, or rounding-critical values (half-way cases and neighbours, integers around 2^52..2^53, 1 ± ulp). A case is non-trivial when the \
 length is >= 1 and at least one element is finite and non-zero; distinct by (container, shape, form / map, data kind, salt). \
-Reductions: one case = (n, rows, salt, zero mode) checks all reductions on data sets built for them; zero mode = none / every element a signed zero / about half the elements signed zeros."
+Reductions: one case = (n, rows, salt, zero mode) checks all reductions on data sets built for them; zero mode = none / every element a signed zero / about half the elements signed zeros (in that mode the log-domain data also hold -inf = ln 0 entries, the first position among them)."
         .into();
     ctx.assumptions = vec![
         "bit-exact comparison; any NaN matches any NaN (sign and payload of a NaN result are not specified by IEEE-754 for commuted operands)".into(),
